@@ -118,6 +118,16 @@ def c13(tier):
                           "size": 0})
                 nobs += 1
             for backend, nth, digest in a["executions"]:
+                if "~" in backend:
+                    # one executor driven through different entry points in turn (execute, execute_limited with
+                    # budget 3 and 2^62): whatever came before, a call must give what it gives on a fresh
+                    # executor - the artifact store has one entry per (entry point, program) resp. per
+                    # (entry point, backend, program) for the budget-3 prefix, which differs between backends
+                    b, entry, _seq = backend.split("~")
+                    key = "%s|%s" % (entry, rq["id"]) if entry != "lim3" else "%s|%s|%s" % (entry, b, rq["id"])
+                    g.append({"proc": p, "ev": "artifact", "key": key, "digest": digest, "exe": "", "nth": 0, "size": 0})
+                    nobs += 1
+                    continue
                 g.append({"proc": p, "ev": "execute", "key": "", "digest": digest, "size": 0,
                           "exe": "%s|%s|%d" % (backend, rq["id"], id(rq) % 1000003), "nth": nth})
                 # all backends and all processes must also agree on the first execution's log
